@@ -9,8 +9,7 @@ CONSTANTS
   StatsThread = TRUE
   OrReacts = TRUE
   EnvLite = FALSE
-  AsIs_Spin = FALSE
   Mut = "none"
 SPECIFICATION GenSpec
-INVARIANTS TypeOK CopyLaw ClosedOnEveryPath CopiersGoneFirst LoopEndsOnlyOnPerm NoSpin NoStuck NoStuckStats
+INVARIANTS TypeOK CopyLaw ClosedOnEveryPath CopiersGoneFirst LoopEndsOnlyOnPerm NoStuck NoStuckStats
 CHECK_DEADLOCK FALSE
